@@ -64,11 +64,12 @@ RULE = (
     'determinants of regular matrices and large entries of singular ones): '
     'every matrix of a complete row-product grid B^4, singular members '
     'included (Fraction inputs: B = the first 6 rich rows; float inputs: B '
-    '= 6 integer rows; thorough adds the 12 rich rows / 8 integer rows and '
-    'the complete {0,1}^16 grid) x scaling mode (all 16 entries, one row '
-    'i = 0..3, one column j = 0..3) x factor s in {2^-7, 2^-10, 1/1000, '
-    '2^10} (floats: '
-    'the three powers of two), plus every affine matrix [[s*A, 0], [t, 1]] '
+    '= 6 integer rows; thorough adds the first 8 rich rows / 8 integer '
+    'rows) x scaling mode (all 16 entries, one row i = 0..3, one column '
+    'j = 0..3) x factor s in {2^-7, 2^-10, 1/1000, 2^10} (floats: the '
+    'three powers of two); thorough also the 12 rich rows (Fractions) and '
+    'the complete {0,1}^16 grid (floats) in the all-entries mode with the '
+    'same factors; plus every affine matrix [[s*A, 0], [t, 1]] '
     'with A in {0,1}^9 (thorough: {-1,0,1}^9), t one of 3 translations and '
     'the same factors (det = s^3 det A, down to 2^-40 for the all-entries '
     'mode).  Fraction inputs: ~M == adj/det and M @ ~M == I == ~M @ M '
@@ -1311,6 +1312,7 @@ ROWS_INT = [
 SCALE_BASES = {
     'rich6': ROWS_RICH[:6],         # 1 296 matrices, Fraction entries
     'int6': ROWS_INT[:6],           # 1 296 integer matrices
+    'rich8': ROWS_RICH[:8],         # 4 096 matrices, Fraction entries
     'int8': ROWS_INT,               # 4 096 integer matrices
     'rich12': ROWS_RICH[:12],       # the quick grid of mat4_inverse
     'bin': ROWS_BIN,                # {0,1}^16
@@ -1322,11 +1324,11 @@ SCALE_MODES = ([('all', 0)] + [('row', k) for k in range(4)]
                + [('col', k) for k in range(4)])
 
 
-def _scaled_cases(base, num):
+def _scaled_cases(base, num, modes=SCALE_MODES):
     n = len(SCALE_BASES[base])
     return [('rows', base, i, j, mode, k, f, num)
             for f in (FACTORS if num == 'frac' else FLOAT_FACTORS)
-            for mode, k in SCALE_MODES
+            for mode, k in modes
             for i in range(n) for j in range(n)]
 
 
@@ -1344,9 +1346,10 @@ def cases_mat4_inverse_scaled(tier):
     if tier == 'thorough':
         cases += (_affine_cases('tern3', 'frac')
                   + _affine_cases('tern3', 'float')
-                  + _scaled_cases('rich12', 'frac')
+                  + _scaled_cases('rich8', 'frac')
                   + _scaled_cases('int8', 'float')
-                  + _scaled_cases('bin', 'float'))
+                  + _scaled_cases('rich12', 'frac', SCALE_MODES[:1])
+                  + _scaled_cases('bin', 'float', SCALE_MODES[:1]))
     return cases
 
 
